@@ -5,6 +5,10 @@ pub open spec fn by_name_after_add(old_map: vstd::map::Map<PackageName, Vec<Pack
     let old_seq = if old_map.contains_key(name) { old_map[name]@ } else { Seq::<PackageNv>::empty() };
     new_vec@ == (if old_seq.contains(nv) { old_seq } else { old_seq.push(nv) })
 }
+/// the export table of a package lists `name -> value`
+pub open spec fn export_listed_as(m: vstd::map::Map<String, String>, name: Seq<char>, value: Seq<char>) -> bool {
+    exists|k: String| #[trigger] m.contains_key(k) && k@ == name && m[k]@ == value
+}
 pub open spec fn others_unchanged_by_name(a: PackageSpecifiers, b: PackageSpecifiers) -> bool {
     b.package_reqs@ == a.package_reqs@ && b.packages_by_name@ == a.packages_by_name@
 }
